@@ -7,6 +7,9 @@ import Mathlib.Algebra.BigOperators.Group.Finset.Basic
 import Mathlib.Algebra.BigOperators.Ring.Finset
 import Mathlib.Algebra.BigOperators.Group.Finset.Sigma
 import Mathlib.Algebra.Field.Basic
+import Mathlib.Algebra.Order.BigOperators.Group.Finset
+import Mathlib.Algebra.Order.Field.Rat
+import Mathlib.Tactic.NormNum
 
 /-!
 # C09 — Gibbs sweeps draw each block from its conditional given the current other blocks
@@ -62,6 +65,11 @@ example : others [0, 1, 2] (sweepL (fun i => ⟨i + 5, true⟩) [0]
       (construct [0, 1, 2] (fun _ => none) (fun _ => (1 : Nat)) (fun _ => (false, false, false)))).cur 1
     = [(0, 5), (2, 1)] := by decide
 
+/-- the hypotheses of `sweep_targets` are satisfiable (three blocks, the middle one) -/
+example (ds : Nat → Draw Nat) :=
+  sweep_targets ds (construct [0, 1, 2] (fun _ => some 2) (fun _ => (1 : Nat)) (fun _ => (false, true, true)))
+    [0] [2] 1 rfl (by decide)
+
 /-- **sweep_visits_all** — one sweep begins the update of every block exactly once, in `par_names`
     order (no hypothesis on the names). -/
 theorem sweep_visits_all (ds : Nat → Draw V) (g : HG N V) :
@@ -75,6 +83,10 @@ theorem block_steps_eq_config (ds : Nat → Draw V) (g : HG N V) (n : N) (hn : n
     stepCount n (sweep ds g).log = stepCount n g.log + g.nsteps n := by
   rw [sweep_eq_sweepL, sweepL_log, stepCount_append, stepCount_sweepEvs,
     List.count_eq_one_of_mem hnd hn, Nat.one_mul]
+
+example (ds : Nat → Draw Nat) :=
+  block_steps_eq_config ds (construct [0, 1, 2] (fun _ => some 2) (fun _ => (1 : Nat)) (fun _ => (false, true, true)))
+    1 (by decide) (by decide)
 
 /-- … they are fed by consecutive draws: the block's new value is the point reached from the
     prologue state by the draws `pos₀ + Σ_{m before n} steps m, …` -/
@@ -179,6 +191,11 @@ theorem cache_fresh_restored_iff (s : Smp N V) (tgt : List (N × V)) (hn : s.isN
   unfold Smp.prologue Smp.CacheFresh
   simp [h, h', hn, hf, Smp.initialize]
 
+/-- the hypotheses of `cache_fresh_restored_iff` hold for every freshly constructed MH-like sampler -/
+example : True ∧ ((((construct [0, 1] (fun _ => none) (fun _ => (1 : Nat)) (fun _ => (false, true, true))).smp 1).prologue
+      [(0, 7)]).CacheFresh = true ↔ [(0, 1)] = [(0, 7)]) :=
+  ⟨trivial, cache_fresh_restored_iff _ _ rfl rfl rfl rfl⟩
+
 /-- an accepted transition leaves a fresh cache (for the target the block was handed) -/
 theorem step_accept_cache_fresh (s : Smp N V) (d : Draw V) (h : d.acc = true) :
     (s.step d).CacheFresh = true := by
@@ -280,6 +297,10 @@ theorem legacy_continue_eq_uninterrupted_partial (ds : Nat → V) (g : LG N V) (
     (hw : g.warm = none) (hs : g.samples = none) :
     (lsample ds g a 0).bind (fun g' => lsample ds g' b 0) = lsample ds g (a + b) 0 :=
   lsample_continue ds g a b ha hw hs
+
+example (ds : Nat → Nat) :=
+  legacy_continue_eq_uninterrupted_partial ds
+    (lconstruct [0, 1] (fun _ => none) (fun _ => 1) (fun _ => 0) : LG Nat Nat) 2 3 (by decide) rfl rfl
 
 /-- **legacy_continue_after_warmup_only_counterexample** — `sample(0, 2)` then `sample(1)` raises
     `IndexError` although two warm-up tuples are stored. -/
@@ -407,6 +428,17 @@ theorem exact_sampler_condInvariant {F : Type} [Field F] (π : (∀ j, α j) →
     CondInvariant π i (fun c _ b => π (Function.update c i b) / ∑ a, π (Function.update c i a)) := by
   intro c b
   rw [← Finset.sum_mul, mul_div_assoc', mul_comm, mul_div_assoc, div_self (hpos c), mul_one]
+
+/-- a concrete instance: two binary blocks, correlated weight, exact block samplers, two
+    transitions per block — all hypotheses of `gibbs_invariant_fintype` hold -/
+example :
+    let π : (Bool → Bool) → ℚ := fun x => if x true = x false then 2 else 1
+    Invariant π (sweepKernel (α := fun _ => Bool)
+      (fun i c _ b => π (Function.update c i b) / ∑ a, π (Function.update c i a)) (fun _ => 2) [true, false]) := by
+  intro π
+  have hpos : ∀ x, (0 : ℚ) < π x := by intro x; simp only [π]; split <;> norm_num
+  exact gibbs_invariant_fintype π _ _ _ (fun i _ => exact_sampler_condInvariant π i
+    (fun c => (Finset.sum_pos (fun a _ => hpos _) Finset.univ_nonempty).ne'))
 
 end invariance
 
